@@ -435,7 +435,7 @@ class Stack:
         if k == "existing":
             _, task, ss, key = q
             kd = {a: self.ser(b) for a, b in key}
-            return labs(o.get_existing_invocations(self.tasks[task], key_serialized_arguments=kd or None, statuses=self.statuses(ss) or None))
+            return labs(o.get_existing_invocations(self.tasks[task], key_serialized_arguments=kd, statuses=self.statuses(ss) or None))   # (an empty key is passed as {}: what ARGUMENTS control passes for a task without parameters)
         if k == "page":
             _, task, ss, limit, offset = q
             return self._page(task, ss, limit, offset)
@@ -715,6 +715,7 @@ def readout_queries(labels: list[str], known: list[str], ext: str, ghosts: list[
     for key in KEYS:
         qs.append(("existing", "tA", "-", key))
     qs += [("existing", "tA", "reg", KEYS[2]), ("existing", "tA", "act", KEYS[1]), ("existing", "tB", "-", ()), ("existing", "tB", "reg", KEYS[1])]
+    qs += [("existing", "tA", "reg", ()), ("existing", "tB", "act", ()), ("existing", "tA", "fin", ())]      # an EMPTY key dictionary with a status filter
     for lim, off in ((100, 0), (2, 0), (2, 1), (1, 2)):
         qs.append(("page", None, "-", lim, off))
     qs += [("page", None, "reg", 2, 0), ("page", None, "reg", 1, 1), ("page", None, "-", 0, 0), ("page", "tA", "-", 100, 0), ("page", "tA", "fin", 2, 0), ("page", "tB", "-", 1, 1)]
